@@ -10,7 +10,10 @@ var core = []string{"C01", "C02", "C03", "C06", "C07"}
 func scenarioConfigs() []*config {
 	pre0 := []uint32{0}
 	pre12 := []uint32{1, 2}
-	b1 := map[string]int{"quick": 1, "thorough": -1}
+	// Deviation bounds (preemptions + non-default environment answers).
+	// Default (set in config.scenario): quick 2, thorough 4, 8 shards.
+	b1 := map[string]int{"quick": 1, "thorough": 3}    // 4 threads or long scripts
+	tiny := map[string]int{"quick": 3, "thorough": -1} // small enough to be explored without a bound
 	return []*config{
 		{
 			Name: "S1-dedup-race", Props: core,
@@ -35,6 +38,7 @@ func scenarioConfigs() []*config {
 		},
 		{
 			Name: "S2-handover-race", Props: core,
+			Bounds: tiny, Shards: 1,
 			Doc:         "a worker blocked in Synchronize vs. an arriving task vs. the worker's cancellation / idle-synchronization timeout",
 			Predeclared: pre0, MaxTicks: 3, IdleSync: 2,
 			Workers: []workerSpec{{Name: "w1", MaxCalls: 2, Busy: []string{"ok", "vanish"}, Cancels: 1}},
@@ -42,6 +46,7 @@ func scenarioConfigs() []*config {
 		},
 		{
 			Name: "S3-completion-vs-cancel-vs-timer", Props: core,
+			Bounds:      map[string]int{"quick": 3, "thorough": 5},
 			Doc:         "worker completion vs. client cancellation vs. the update timer vs. a failing Send",
 			Predeclared: pre0, MaxTicks: 3, SendFaults: true,
 			Clients: []clientSpec{{Name: "c1", Calls: []string{"exec A i1"}, Cancels: 1}},
@@ -57,6 +62,7 @@ func scenarioConfigs() []*config {
 		},
 		{
 			Name: "S5-worker-vanishes", Props: core,
+			Bounds: tiny, Shards: 1,
 			Doc:      "worker-created queue; the worker takes the task and vanishes or is slow; the clock passes the worker timeout and the queue timeout while the client waits",
 			MaxTicks: 4,
 			Workers:  []workerSpec{{Name: "w1", MaxCalls: 3, Busy: []string{"vanish", "sleep4", "ok"}}},
@@ -65,7 +71,7 @@ func scenarioConfigs() []*config {
 		{
 			Name: "S8-abandon-vs-completion", Props: core,
 			Doc:         "both clients of a deduplicated task may leave; no-waiter timeout vs. worker completion",
-			Predeclared: pre0, MaxTicks: 4,
+			Predeclared: pre0, MaxTicks: 3,
 			Clients: []clientSpec{{Name: "c1", Calls: []string{"exec A i1"}, Cancels: 1}, {Name: "c2", Calls: []string{"exec A i2"}, Cancels: 1}},
 			Workers: []workerSpec{{Name: "w1", MaxCalls: 2, Busy: []string{"ok", "sleep3"}}},
 		},
@@ -111,6 +117,7 @@ func scenarioConfigs() []*config {
 		},
 		{
 			Name: "S10-retry-limit", Props: core,
+			Bounds: tiny, Shards: 1,
 			Doc:         "a worker keeps re-requesting the task it was given (crash loop); WorkerTaskRetryCount=1",
 			Predeclared: pre0, MaxTicks: 2,
 			Clients: []clientSpec{{Name: "c1", Calls: []string{"exec A i1"}}},
@@ -142,7 +149,7 @@ func scenarioConfigs() []*config {
 			Doc:         "WaitExecution re-attaches by name while the abandoned operation is being garbage collected (no-waiter timeout 1) and an operator polls; all thread switches are free, only early clock ticks are bounded",
 			Predeclared: pre0, MaxTicks: 2, NoWaiter: 1, PreemptFree: true, Bounds: b1,
 			Clients:   []clientSpec{{Name: "c1", Calls: []string{"exec A i1"}, Cancels: 1}, {Name: "c2", Stage: 1, Calls: []string{"wait c1.0"}}},
-			Operators: []operatorSpec{{Name: "op", Stage: 1, Calls: []string{"list", "list"}}},
+			Operators: []operatorSpec{{Name: "op", Stage: 1, Calls: []string{"list"}}},
 		},
 		{
 			Name: "S12-crash-points", Props: []string{"C01", "C02", "C06", "C07"},
